@@ -118,7 +118,9 @@ func c22Tokens(tokens []string) string {
 
 func c22IsWriteKind(st int) bool {
 	return st == parser.StmtInsert || st == parser.StmtUpdate || st == parser.StmtDelete || st == parser.StmtReplace ||
-		st == parser.StmtDDL || st == parser.StmtLoad // rejected for read-only users (C21)
+		st == parser.StmtDDL || st == parser.StmtLoad || // rejected for read-only users (C21)
+		// decided by C21's check of the text (refused outright, or followed to the main statement)
+		st == parser.StmtCallProc || st == parser.StmtPrepare || st == parser.StmtExecute || st == parser.StmtWith || st == parser.StmtComment
 }
 
 // statement kinds handled without a plan other than SHOW: not followed end to end
